@@ -67,6 +67,10 @@ def eq_term(a, e, tol=None):
         return a is None and e is None
     if isinstance(a, str) or isinstance(e, str):
         return a == e
+    if a is e and is_sym(a):
+        return True
+    if is_sym(a) and is_sym(e) and type(a) is type(e) and a.t.eq(e.t):
+        return True
     if isinstance(a, (SymBool, bool, np.bool_)) and isinstance(e, (SymBool, bool, np.bool_)):
         if not is_sym(a) and not is_sym(e):
             return bool(a) == bool(e)
@@ -169,6 +173,8 @@ def replay_body(body, cand, tol=1e-7, key=None):
     """run body(inputs, **kwargs) on float64 inputs; violated iff some actual != expected"""
     inp = to_float_struct(cand["case"])
     actual, expected = body(inp, **cand["case_kwargs"])
+    if key is None and cand.get("obligation") in expected:
+        key = cand["obligation"]        # reproduce the reported obligation, not just any difference
     bad = []
     for k in expected:
         if key is not None and k != key:
